@@ -204,14 +204,20 @@ class TokenParser(Parser):
             raise ParserError(f"line {self._lineno(tokens.next)}: expected start of block '{tokens.next}'")
 
         fields = []
+        field_names = []
         tokens.consume()
         while len(tokens):
             if tokens.next == self.TOK.BLOCK and tokens.next.value == "}":
                 tokens.consume()
                 break
 
-            field = self._parse_field(tokens, [f._name for f in fields])
+            field = self._parse_field(tokens, field_names)
             fields.append(field)
+
+            field_names.append(field._name)
+            if field.name is None and hasattr(field.type, "fields"):
+                # The fields of an anonymous structure are fields of this structure too
+                field_names.extend(field.type.fields)
 
         if register:
             names.extend(self._names(tokens))
